@@ -1781,13 +1781,16 @@ impl<'de, 'e> de::Deserializer<'de> for YamlDeserializer<'de, 'e> {
             }
 
             // YAML null forms as scalars → None (a `!!binary` scalar is a payload, never a null:
-            // the base64 text of some byte strings spells `null`)
+            // the base64 text of some byte strings spells `null`; an application tag selects an
+            // enum variant - `!Variant ~` is that variant, as `{Variant: ~}` is)
             Some(Ev::Scalar {
                 value: s,
                 style,
                 tag,
                 ..
-            }) if tag != &SfTag::Binary && scalar_is_nullish_for_option(s, style) => {
+            }) if !matches!(tag, SfTag::Binary | SfTag::Other)
+                && scalar_is_nullish_for_option(s, style) =>
+            {
                 let _ = self.ev.next()?; // consume the scalar
                 visitor.visit_none()
             }
